@@ -314,20 +314,21 @@ func checkClosures(c *Ctx) {
 		}
 		var parentAcc []core.Access
 		for _, a := range lp.Accesses {
-			if a.Fn != f {
-				// accesses inside synchronously called closures count as the spawner's
+			// accesses inside synchronously called functions are ordered by their call site in the spawner
+			at := a.Site
+			if at == nil || at.Parent() != f {
 				parentAcc = append(parentAcc, a)
 				continue
 			}
 			before := true
 			for _, sp := range spawns {
-				if !core.InstrDominates(a.Instr, sp) {
+				if !core.InstrDominates(at, sp) {
 					before = false
 				}
 			}
 			after := false
 			for _, w := range waits {
-				if core.InstrDominates(w, a.Instr) {
+				if core.InstrDominates(w, at) {
 					after = true
 				}
 			}
